@@ -23,6 +23,18 @@ def regenerate(res):
         return
     common.write_if_changed(os.path.join(common.COQ, "Gen", "TimeConvGen.v"), text)
     res.trusted.append("translate/c2gallina.py (clang 14 JSON AST -> Gallina, fail-closed integer subset)")
+    regenerate_time_parts(res)
+
+
+def regenerate_time_parts(res):
+    """T13: digital_rf_get_time_parts must be gmtime() + the field table -> coq/Gen/TimePartsGen.v"""
+    import timeparts2gallina
+    try:
+        text = timeparts2gallina.translate(common.REPO)
+    except c2gallina.Unsupported as e:
+        res.broken.append({"what": "T13 translator: digital_rf_get_time_parts is no longer gmtime() + field table", "log": str(e)})
+        return
+    common.write_if_changed(os.path.join(common.COQ, "Gen", "TimePartsGen.v"), text)
 
 
 def civil(t):
